@@ -63,6 +63,22 @@ func (store *Store) GetBalances(ctx context.Context, query BalanceQuery) (ledger
 				}
 			})
 
+			// The zero rows must exist (and be visible) before the locking read below: rows
+			// inserted by the "ins" CTE of that same statement are not visible to its SELECT,
+			// so for a never-used (account, asset) nothing was locked and two concurrent
+			// writers both read a zero balance. Inserting them in a statement of their own
+			// makes a concurrent first use wait here, then see and lock the committed row.
+			if len(accountsVolumes) > 0 {
+				_, err := store.db.NewInsert().
+					Model(&accountsVolumes).
+					ModelTableExpr(store.GetPrefixedRelationName("accounts_volumes")).
+					On("conflict do nothing").
+					Exec(ctx)
+				if err != nil {
+					return nil, postgres.ResolveError(err)
+				}
+			}
+
 			err := store.db.NewSelect().
 				With(
 					"ins",
